@@ -842,7 +842,11 @@ func (self *AofChannel) Push(dbId uint8, lock *Lock, commandType uint8, lockComm
 	} else {
 		aofLock.lock = nil
 	}
-	if lockCommand.TimeoutFlag&protocol.TIMEOUT_FLAG_RCOUNT_IS_PRIORITY != 0 {
+	if unLockCommand == nil {
+		if lockCommand.TimeoutFlag&protocol.TIMEOUT_FLAG_RCOUNT_IS_PRIORITY != 0 {
+			aofLock.AofFlag |= AOF_FLAG_RCOUNT_IS_PRIORITY
+		}
+	} else if unLockCommand.TimeoutFlag&protocol.TIMEOUT_FLAG_RCOUNT_IS_PRIORITY != 0 {
 		aofLock.AofFlag |= AOF_FLAG_RCOUNT_IS_PRIORITY
 	}
 	aofLock.HandleType = AOF_LOCK_TYPE_FILE
